@@ -48,8 +48,10 @@ class Sym:
 
 
 class Obj:
-    """an object with known attribute values"""
+    """an object with known attribute values (and, optionally, methods:
+    name -> FunctionDef of the analysed source)"""
     def __init__(self, **attrs):
+        self.methods = attrs.pop('_methods', {})
         self.attrs = attrs
 
 
@@ -254,6 +256,9 @@ def ev(e, env):
                 else:
                     raise Unsupported('membership')
                 r = r if isinstance(op, ast.In) else not r
+            elif isinstance(op, (ast.Lt, ast.LtE, ast.Gt, ast.GtE)) and all(
+                    isinstance(x, int) and not isinstance(x, bool) for x in (left, right)):
+                r = {ast.Lt: left < right, ast.LtE: left <= right, ast.Gt: left > right, ast.GtE: left >= right}[type(op)]
             else:
                 raise Unsupported('comparison')
             if not r:
@@ -317,6 +322,23 @@ def ev(e, env):
             v = ev(f.value, env)
             if isinstance(v, str):
                 return getattr(v, f.attr)()
+        if isinstance(f, ast.Attribute):
+            try:
+                o = ev(f.value, env)
+            except Unsupported:
+                o = None
+            if isinstance(o, Obj) and f.attr in o.methods:
+                fn = o.methods[f.attr]
+                decos = {getattr(d, 'id', getattr(d, 'attr', None)) for d in fn.decorator_list}
+                args = [ev(a, env) for a in e.args]
+                if 'staticmethod' not in decos:
+                    args = [o] + args
+                return call(FuncRef(fn, env), args, {k.arg: ev(k.value, env) for k in e.keywords if k.arg}, env)
+        if isinstance(f, ast.Name) and f.id == 'len' and len(e.args) == 1 and not e.keywords:
+            v = ev(e.args[0], env)
+            if isinstance(v, (tuple, list, str, dict)):
+                return len(v)
+            raise Unsupported('len of a symbol')
         if isinstance(f, ast.Name) and f.id == 'isinstance' and len(e.args) == 2:
             v = ev(e.args[0], env)
             tn = e.args[1].id if isinstance(e.args[1], ast.Name) else None
